@@ -607,7 +607,7 @@ func (bridge *ExprBridge) convertLikeToFunction(field, pattern string) string {
 		inner := strings.Trim(pattern, "%")
 		if inner == "" {
 			// %% 表示匹配任何字符串
-			return "true"
+			return fmt.Sprintf("%s != nil", field)
 		}
 		return fmt.Sprintf("%s contains '%s'", field, inner)
 	} else if strings.HasPrefix(pattern, "%") && len(pattern) > 1 {
@@ -618,7 +618,7 @@ func (bridge *ExprBridge) convertLikeToFunction(field, pattern string) string {
 		return fmt.Sprintf("%s startsWith '%s'", field, core)
 	} else if pattern == "%" {
 		// 单独的%匹配任何字符串
-		return "true"
+		return fmt.Sprintf("%s != nil", field)
 	} else if strings.Contains(pattern, "%") || strings.Contains(pattern, "_") {
 		// 复杂模式（如prefix%suffix）或包含单字符通配符，使用自定义的like_match函数
 		return fmt.Sprintf("like_match(%s, '%s')", field, pattern)
